@@ -19,7 +19,7 @@ func propC14() Property {
 	return Property{
 		ID: "C14",
 		Explanation: "Codec table agreement for the two value types whose reader and writer are driven by tables. R1 (timestamps): for every precision P the layout Read parses when it tags the value P is the layout Write emits for P; the length Read switches on equals len(layout); Write's fall-through layout is the one Read tags with the zero precision (Millis); all four precisions are covered on both sides. " +
-			"R2 (booleans): the literals Read accepts are exactly the literals Write produces, with the same polarity (\"Y\" ↔ true, \"N\" ↔ false), anything else is an error. R3 (integer scanner, found by shape: a function folding acc*10+digit over the bytes of a parameter): a byte reaches the accumulation only under guards confining it to '0'..'9'; the accumulator is compared against a limit before it is multiplied (otherwise a long digit string wraps to a different, accepted number); no success return is possible for an empty text — either the scanner tests len itself or every call site passes a text its guards show non-empty (this is what makes a lone '-' an error); the only prefix a caller strips is one byte at position 0 shown equal to '-'. R4 (float): the reader's byte whitelist, read off the rejecting return's guard, is exactly digits (through a predicate shown to be true exactly on '0'..'9'), '.' and '-'; the receiver is assigned only after ParseFloat succeeded and no rejection can follow the assignment. R5: every time-typed Write formats t.UTC() (the layouts carry no zone), so the written text denotes the same instant whatever the value's location.",
+			"R2 (booleans): the literals Read accepts are exactly the literals Write produces, with the same polarity (\"Y\" ↔ true, \"N\" ↔ false), anything else is an error. R3 (integer scanner, found by shape: a function folding acc*10+digit over the bytes of a parameter): a byte reaches the accumulation only under guards confining it to '0'..'9'; the accumulator is compared against a limit before it is multiplied (otherwise a long digit string wraps to a different, accepted number); no success return is possible for an empty text — either the scanner tests len itself or every call site passes a text its guards show non-empty (this is what makes a lone '-' an error); the only prefix a caller strips is one byte at position 0 shown equal to '-'. R4 (float): the reader's byte whitelist, read off the rejecting return's guard, is exactly digits (through a predicate shown to be true exactly on '0'..'9'), '.' and '-'; the receiver is assigned only after ParseFloat succeeded and no rejection can follow the assignment. R5: every time-typed Write formats t.UTC() (the layouts carry no zone), so the written text denotes the same instant whatever the value's location. R6: on the path that stripped a '-' the digit scanner's limit is the positive path's limit plus one (|MinInt| = MaxInt + 1).",
 		NotDecided: "the grammar accepted by strconv.ParseFloat and time.Parse inside the whitelisted alphabet (e.g. two dots, a '-' in the middle: library behaviour), decimals, value round trips as equalities, truncation to the written precision.",
 		Rules: []RuleDef{
 			{ID: "C14-R1", Desc: "timestamp layout/length/precision tables agree between Read and Write", Min: 5, Run: c14R1},
@@ -27,6 +27,7 @@ func propC14() Property {
 			{ID: "C14-R3", Desc: "integer scanner: digits only, non-empty, sign only in front, accumulation guarded", Min: 4, Run: c14R3},
 			{ID: "C14-R4", Desc: "float whitelist: digits, '.', '-' only, before the value is stored", Min: 3, Run: c14R4},
 			{ID: "C14-R5", Desc: "timestamp writers format the UTC wall clock", Min: 1, Run: c14R5},
+			{ID: "C14-R6", Desc: "negative integers: scanner limit is the positive limit plus one", Min: 1, Run: c14R6},
 		},
 	}
 }
@@ -200,7 +201,7 @@ func propC18() Property {
 	return Property{
 		ID: "C18",
 		Explanation: "R1 (weekday domain): every time.Weekday value that the schedule code uses as a weekday — compared with another weekday, passed to or returned from a Weekday-typed parameter/result, stored in a Weekday field — lies in [0,6], by interval analysis over the expression (Time.Weekday() ∈ [0,6], constants, parameter intervals joined over in-module call sites, Go's truncated %, +, −). A Weekday difference converted straight to int (day-offset arithmetic) is not a sink. " +
-			"R2 (day-name table): every key of the configuration's day map names the Weekday constant it maps to (three-letter prefix), and all seven days are present. R3 (calendar days): window boundaries are wall-clock times in the configured zone, so moving a boundary by whole days must use calendar arithmetic (AddDate / time.Date); no time.Add / Sub in the schedule code takes a duration that is a day count times 24h — on a day with a zone transition that is an hour off, and two instants of one window are reported as different sessions. R4 (one zone): every weekday / clock / date component read in a method of the schedule type is read from t.In(the range's location) or from a time.Date in that location. R5 (no dead arm): no block of those methods has a reach condition that demands incompatible orderings of the same two operands — an arm shadowed by a weakened earlier case never applies. R6: every comparison of the window's start and end time-of-day has the polarity start < end (or its complement), so equal times are a full cycle everywhere.",
+			"R2 (day-name table): every key of the configuration's day map names the Weekday constant it maps to (three-letter prefix), and all seven days are present. R3 (calendar days): window boundaries are wall-clock times in the configured zone, so moving a boundary by whole days must use calendar arithmetic (AddDate / time.Date); no time.Add / Sub in the schedule code takes a duration that is a day count times 24h — on a day with a zone transition that is an hour off, and two instants of one window are reported as different sessions. R4 (one zone): every weekday / clock / date component read in a method of the schedule type is read from t.In(the range's location) or from a time.Date in that location. R5 (no dead arm): no block of those methods has a reach condition that demands incompatible orderings of the same two operands — an arm shadowed by a weakened earlier case never applies. R6: every comparison of the window's start and end time-of-day has the polarity start < end (or its complement), so equal times are a full cycle everywhere. R7: in an overnight window the membership test gets weekday−1 exactly under ts <= end and the plain weekday under start <= ts; a time.Date built from a time-of-day takes hour, minute and second from the same value.",
 		NotDecided: "window semantics, IsInSameRange as a relation, time zones, daylight saving.",
 		Rules: []RuleDef{
 			{ID: "C18-R1", Desc: "weekday values stay in [0,6]", Min: 2, Run: c18R1},
@@ -209,6 +210,7 @@ func propC18() Property {
 			{ID: "C18-R4", Desc: "wall-clock components are read in the configured zone", Min: 6, Run: c18R4},
 			{ID: "C18-R5", Desc: "no decision arm of the schedule code is dead by contradiction", Min: 10, Run: c18R5},
 			{ID: "C18-R6", Desc: "start/end time comparisons have one polarity (start < end)", Min: 2, Run: c18R6},
+			{ID: "C18-R7", Desc: "overnight weekday attribution; wall-clock from one time-of-day", Min: 3, Run: c18R7},
 		},
 	}
 }
